@@ -11,7 +11,7 @@ import (
 	"verif/ref/refchain"
 )
 
-var poisonKinds = []string{"dup-input", "rbf-spends-replaced", "no-outputs", "output-overflow", "deep-reorg"}
+var poisonKinds = []string{"dup-input", "rbf-spends-replaced", "no-outputs", "output-overflow", "deep-reorg", "orphan-of-missing-output", "orphan-of-spent-output"}
 
 func (h *hist) stepPoison() bool {
 	k := poisonKinds[h.r.Intn(len(poisonKinds))]
@@ -103,6 +103,48 @@ func (h *hist) stepPoison() bool {
 		h.sub(x, h.path())
 	case "deep-reorg":
 		return h.stepDeepReorg()
+	case "orphan-of-missing-output":
+		// an orphan that names an output index its (still unknown) parent does not have; then the
+		// parent is mined
+		p := h.build(h.take(&fc, 1), bopt{family: "orphan-parent-mined-later", fee: h.randFee(), bad: -1, nout: 2})
+		op := OP{Hash: p.id, Idx: uint32(len(p.t.Out) + h.r.Intn(60))}
+		h.known[op] = refchain.Coin{Value: 50000, Script: []byte{0x51}}
+		c := h.build([]OP{op}, bopt{family: "orphan-of-missing-output", fee: 500, bad: -1, nout: 1})
+		delete(h.known, op)
+		c.poison = k
+		if h.sub(c, "net"); h.stopped {
+			return true
+		}
+		if h.r.Intn(3) == 0 { // the parent reaches the pool first: harmless (BAD_INPUT when retried)
+			if h.sub(p, "net"); h.stopped {
+				return true
+			}
+			return h.stepMinePool(true)
+		}
+		b := h.blockFrom(nil, []*genTx{p})
+		return h.deliver(b, "parent-of-bad-orphan", true)
+	case "orphan-of-spent-output":
+		// an orphan of an output that the chain has already spent; a reorganisation then mines the
+		// parent and the spender again
+		var spentOnes []OP
+		for n, j := h.ref.Tip, 0; n != nil && n.Block != nil && j < 3; n, j = n.Parent, j+1 {
+			for _, t := range n.Block.Txs[1:] {
+				for _, in := range t.In {
+					if _, ok := h.known[in.Prev]; ok {
+						spentOnes = append(spentOnes, in.Prev)
+					}
+				}
+			}
+		}
+		if len(spentOnes) == 0 {
+			return h.stepMineMixed()
+		}
+		x := h.build([]OP{spentOnes[h.r.Intn(len(spentOnes))]}, bopt{family: "orphan-of-spent-output", fee: 900, bad: -1, nout: 1})
+		x.poison = k
+		if h.sub(x, h.path()); h.stopped {
+			return true
+		}
+		return h.stepReorg()
 	}
 	return true
 }
